@@ -14,6 +14,17 @@ KNOWN = os.path.join(VERIF, "known_findings.txt")
 EVID = os.path.join(VERIF, "evidence")
 
 
+def _load_floors():
+    p = os.path.join(VERIF, "analysis", "floors.json")
+    if os.path.exists(p):
+        return json.load(open(p))
+    return {}
+
+
+_FLOORS = _load_floors()
+_RECORDED = {}
+
+
 class Violation:
     def __init__(self, prop, key, msg, loc=None, config=None, rule=None, witness=None, extra=None):
         self.prop = prop
@@ -61,8 +72,15 @@ class Report:
         return v
 
     def floor(self, name, measured, floor, config=None):
-        """Fail closed if an anchor count falls below what was confirmed by hand."""
+        """Fail closed if an anchor count falls below what was confirmed on the pinned tree. The committed
+        table analysis/floors.json (recorded with tools/record_floors.py and reviewed by hand) overrides the
+        in-code default; it is never written during a check."""
         k = "%s[%s]" % (name, config) if config else name
+        rec = _FLOORS.get(self.prop, {}).get(k)
+        if os.environ.get("VERIF_RECORD_FLOORS"):
+            _RECORDED.setdefault(self.prop, {})[k] = measured
+        elif rec is not None:
+            floor = rec
         self.floors[k] = (measured, floor)
         if measured < floor:
             self.anchor_errors.append("ANCHOR-MISSING %s: measured %d < floor %d" % (k, measured, floor))
